@@ -82,6 +82,9 @@ class Interp:
                 cells = b.v.cells
                 while len(cells) <= p[2]: cells.append(Cell())
                 return cells[p[2]]
+            if isinstance(bv, (Ptr, Ref)) and p[2] == 0 and ("Unique<" in p[3] or "NonNull<" in p[3]):
+                # Box internals (vec![..] lowering): Box.0 (Unique) .0 (NonNull) -> pointer to the boxed value
+                return Cell(Ref(bv.cell))
             if isinstance(bv, Ptr) and p[2] == 0:
                 return bv.cell
             raise Unmodelled(f"field .{p[2]} of {type(bv).__name__} in {fr.fn.name}")
